@@ -414,6 +414,16 @@ fn explore_both(
             leads: vec![0, 1, 2],
             with_neighbours: false,
         },
+        // three shapes under one path whose members share / differ in a component of a SECOND
+        // same-path family (state carried from one comparison to the next shows only here)
+        DFamily {
+            max_members: 3,
+            max_fields: 2,
+            alphabet: vec![FamTy::Z, FamTy::Z2, FamTy::U8, FamTy::U16],
+            forms: vec![MemberForm::NamedStruct],
+            leads: vec![0],
+            with_neighbours: false,
+        },
     ];
     for f in &fams {
         let budget = Budget {
@@ -425,6 +435,80 @@ fn explore_both(
             let case = Case::new(RegSrc::Prog(s.program()), sp.clone(), "D-family");
             check(&case, "plain-family", ctx);
         }));
+    }
+    // D-nest: two crate versions of a three-level chain of generic types Outer<T> -> Mid<U> -> Inner<V>;
+    // the versions differ (or not) in one field of the innermost type, so the comparison reaches the
+    // difference three generic levels down
+    {
+        let alts = |v: bool| -> Vec<Ty> {
+            let _ = v;
+            vec![
+                Ty::Vec(b(Ty::Param(0))),
+                Ty::Vec(b(U8)),
+                Ty::Vec(b(U16)),
+                Ty::Param(0),
+                U8,
+                U16,
+                Ty::Option(b(Ty::Param(0))),
+            ]
+        };
+        let mut nest: Vec<Case> = vec![];
+        for xa in alts(true) {
+            for xb in alts(false) {
+                for (mid_arg, inner_arg) in [(U8, U16), (U16, U8), (U8, U8)] {
+                    // defs: 0 InnerA, 1 MidA, 2 OuterA, 3 InnerB, 4 MidB, 5 OuterB, 6 Host
+                    let mk = |x: &Ty, base: usize| -> Vec<Def> {
+                        vec![
+                            Def::strukt(&["n", "c"], "Inner", &["V"], named(vec![("v", Ty::Param(0)), ("x", x.clone())])),
+                            Def::strukt(
+                                &["n", "c"],
+                                "Mid",
+                                &["U"],
+                                named(vec![("u", Ty::Param(0)), ("i", Ty::Named(base, vec![inner_arg.clone()]))]),
+                            ),
+                            Def::strukt(
+                                &["n", "c"],
+                                "Outer",
+                                &["T"],
+                                named(vec![("t", Ty::Param(0)), ("m", Ty::Named(base + 1, vec![mid_arg.clone()]))]),
+                            ),
+                        ]
+                    };
+                    let mut defs = mk(&xa, 0);
+                    defs.extend(mk(&xb, 3));
+                    defs.push(Def::strukt(
+                        &["n", "h"],
+                        "Host",
+                        &[],
+                        named(vec![
+                            ("a", Ty::Named(2, vec![Ty::Prim(Prim::Bool)])),
+                            ("b", Ty::Named(5, vec![Ty::Prim(Prim::Bool)])),
+                        ]),
+                    ));
+                    let prog = Program {
+                        defs,
+                        roots: vec![Ty::Named(6, vec![])],
+                    };
+                    nest.push(Case::new(RegSrc::Prog(prog), sp.clone(), "D-nest"));
+                }
+            }
+        }
+        report.add(sweep(
+            "D-nest(two versions of a three-level generic chain, innermost field from 7 alternatives each, 3 argument choices)",
+            &nest,
+            Duration::from_secs(60),
+            |c| c.reg.describe(),
+            |c, ctx| {
+                let class = match &c.reg {
+                    RegSrc::Prog(p) => match program_coincident(p) {
+                        Some(w) => format!("coincident-generic({})", &w[..3]),
+                        None => "nested-generic-chain".to_string(),
+                    },
+                    _ => "chain".into(),
+                };
+                check(c, &class, ctx)
+            },
+        ));
     }
     // D-generic without the coincidence filter: coincident instantiation sets and Config-trait
     // variants with different associated types are same-path families too
